@@ -19,7 +19,7 @@ from sim import aioloop as A
 from sim.adata import Events, PrivateFault, make_async_data
 from sim.aioloop import GATE_DELAYS
 from sim.envs import clear_process_caches
-from sim.core import native_text, Outcome, digest, exc_key, scrub
+from sim.core import native_text, unescaped, Outcome, digest, exc_key, scrub
 from sim.envs import AE_MODES, CodeMemo
 from sim.tape import Tape
 from sim.workload import Gen
@@ -206,7 +206,7 @@ def run(tape: Tape) -> Outcome:
     ENVCLS[0] = (0, 0, 0, 0, 0, 1, 2, 2)[tape.draw(8, "m")]
     out.count("env_class_" + ("Environment", "NativeEnvironment", "SandboxedEnvironment")[ENVCLS[0]])
     P = Gen(tape, is_async=True, loopcontrols=lc, size=size, allow_module_state=tagged_ok, env_globals=True,
-            template_globals=True, native=ENVCLS[0] == 1).generate()
+            template_globals=True, native=ENVCLS[0] == 1, pair_den=8).generate()
     # template-level globals, fixed per template name (documented use); 'main' and 'base' are never
     # included or imported by others, so the documented "cached template keeps its globals" cannot interfere
     tg = {}
@@ -288,6 +288,18 @@ def run(tape: Tape) -> Outcome:
                          if not (fkind and j == ftask and g in (("cancelled",), ("fault",))) and g != rf]
                 if not still:
                     out.known = "KF-C29-1"
+            if out.known is None and "module_eval_ctx" in P.tags and all(results[j][0] == "ok" and refs[j][0] == "ok" for j in mism):
+                # structured classifier for KF-C37-1: the program runs an {% autoescape %} block inside a macro of a
+                # module imported without context (generator tag), both sides rendered text, and a fresh Environment
+                # per task (no shared module context) removes the mismatch.  (A first version also required the texts
+                # to differ in escaping only; filter blocks applied AFTER the wrongly escaped text - replace, upper,
+                # truncate - make that too narrow: '&amp;' becomes '&bmp;'.)
+                out.count("kf_c37_1_only_escaping_differs", 1 if all(unescaped(results[j][1]) == unescaped(refs[j][1]) for j in mism) else 0)
+                r2, _l2, _i2 = _concurrent(Tape(streams=tape.used()), P, ae, lc, cache_size, specs, fault, fresh_env_per_task=True, globals_mode=globals_mode)
+                still = [j for j, (g, rf) in enumerate(zip(r2, refs))
+                         if not (fkind and j == ftask and g in (("cancelled",), ("fault",))) and g != rf]
+                if not still:
+                    out.known = "KF-C37-1"
             out.violate(sig, task=f"r{i}", got=results[i], expected=refs[i])
             return out
         if alternations:
